@@ -855,25 +855,64 @@ def out_exists(it, p, what="exists"):
     if not _under_output(p):
         return True
     t = as_tmpl(p.s if isinstance(p, PathObj) else p).text()
-    pre = World.trace.setdefault("out_pre", {})
-    if t not in pre:
-        pre[t] = choose("the output directory already holds %s" % t)
+    if World.trace.get("fresh_output"):
+        World.trace.setdefault("consulted_output", []).append("%s(%s)" % (what, t))
+        return False  # this evaluation writes into an empty directory
+    # one scenario per evaluation: the directory is empty, or it already holds every path the run asks about (the
+    # generator treats its files independently of each other; mixed directories are not enumerated)
+    if "out_pre_all" not in World.trace:
+        World.trace["out_pre_all"] = choose("the output directory already holds the files this run asks about")
     World.trace.setdefault("consulted_output", []).append("%s(%s)" % (what, t))
-    return pre[t]
+    return World.trace["out_pre_all"]
 
 
 def out_getsize(it, p):
     if not out_exists(it, p, "getsize"):
         raise PyRaise(ExcObj(it.builtins["FileNotFoundError"], [p]))
-    t = as_tmpl(p.s if isinstance(p, PathObj) else p).text()
-    return SymInt("size of the file already at %s" % t, lo=0)
+    return PreSize()
+
+
+def _pre_equal(exact):
+    """Do the files already in the output directory hold what this run would write?  One answer per evaluation.  Read as
+    bytes (or as text with newline='') equality is equality of the files; read as text with universal newlines it only
+    says that they decode to the same text."""
+    k = "out_pre_equal" if exact else "out_pre_equal_text"
+    if k not in World.trace:
+        World.trace[k] = choose("the files already there hold exactly what this run writes" if exact else
+                                "the files already there decode (newlines translated) to the text this run writes")
+    return World.trace[k]
+
+
+class PreContent:
+    """Content of a file of the pre-populated output directory."""
+
+    def __init__(self, exact=True):
+        self.exact = exact
+
+    def abs_eq(self, other):
+        return _pre_equal(self.exact)
+
+    def __repr__(self):
+        return "<content already in the output directory>"
+
+
+class PreSize(SymInt):
+    """Size of such a file: equal sizes do not make equal contents (a separate unknown)."""
+
+    def __init__(self):
+        SymInt.__init__(self, "size of a file already in the output directory", lo=0)
+
+    def abs_eq(self, other):
+        if "out_pre_same_size" not in World.trace:
+            World.trace["out_pre_same_size"] = choose("the files already there have the size of what this run writes")
+        return World.trace["out_pre_same_size"]
 
 
 class PreFile:
     """A file of the pre-populated output directory opened for reading: its content is unknown."""
 
-    def __init__(self, it, path, mode):
-        self.path, self.mode = path, mode
+    def __init__(self, it, path, mode, kw=None):
+        self.it, self.path, self.mode, self.kw = it, path, mode, dict(kw or {})
         self.t = as_tmpl(path.s if isinstance(path, PathObj) else path).text()
 
     def abs_enter(self):
@@ -885,7 +924,16 @@ class PreFile:
     def abs_getattr(self, it, a):
         if a in ("read", "readlines", "readline"):
             World.trace.setdefault("consulted_output", []).append("read(%s)" % self.t)
-            return Native(lambda *x: Sym("content already at %s" % self.t, wild=True), "file." + a)
+            def read(*x):
+                binary = "b" in self.mode
+                if not binary:
+                    # whatever is lying there need not be text in the requested encoding
+                    if "out_pre_undecodable" not in World.trace:
+                        World.trace["out_pre_undecodable"] = choose("a file already there is not valid text in the encoding it is read with")
+                    if World.trace["out_pre_undecodable"]:
+                        raise PyRaise(ExcObj(self.it.builtins["UnicodeDecodeError"], ["undecodable leftover file"]))
+                return PreContent(exact=binary or self.kw.get("newline") == "")
+            return Native(read, "file." + a)
         if a == "close":
             return Native(lambda: None, "file.close")
         raise Unsupported("file.%s on a file opened for reading" % a)
@@ -896,7 +944,7 @@ def open_file(it, path, mode="r", **kw):
         if _under_output(path):
             if not out_exists(it, path, "open"):
                 raise PyRaise(ExcObj(it.builtins["FileNotFoundError"], [path]))
-            return PreFile(it, path, mode)
+            return PreFile(it, path, mode, kw)
         raise Unsupported("open(%r, %r): reading files is not modelled" % (path, mode))
     return FileSink(it, path, mode, kw)
 
